@@ -6,7 +6,7 @@ import FuelVerif.Lemmas.SparseRefine
 namespace FuelVerif.SmtRefine
 open FuelVerif FuelVerif.SmtStore FuelVerif.SmtBytes FuelVerif.Gen.Sparse FuelVerif.Smt
 
-variable (H : Bytes → Bytes) (hok : HashOK H) {σ : Type} (S : StoreOps σ)
+variable (H : Bytes → Bytes) {U : T → Prop} (hok : HashOn H U) {σ : Type} (S : StoreOps σ)
 
 /-- the old path nodes above the terminal, leaf-to-root -/
 def upParents (k : Key32) : Nat → T → List Node
@@ -109,10 +109,10 @@ theorem mergeSides_append (rm : Bool) (s : Bytes) (p : Node) :
     exact mergeSides_append rm s p sides parents _ _ (by simpa using h)
 
 /-- the two children of a canonical internal node have different hashes -/
-theorem canon_children_ne {d : Nat} {l r : T} (hc : Canon bit32 width d (.node l r)) :
-    hb H hok l ≠ hb H hok r := by
+theorem canon_children_ne {d : Nat} {l r : T} (hc : Canon bit32 width d (.node l r))
+    (hU : ∀ u, IsSub u (.node l r) → U u) : hb H hok l ≠ hb H hok r := by
   intro e
-  have e' := hb_injective H hok e
+  have e' := hb_inj_sub H hok hU hU (child_left_sub l r) (child_right_sub l r) e
   subst e'
   obtain ⟨_, hl, hr, hsz, _, _⟩ := hc
   obtain ⟨k, h1, h2⟩ := exists_of_all (t := l) (by omega) hl hr
@@ -148,7 +148,7 @@ include laws
 returns the node of the tree with the terminal replaced, touches only the old and new path hashes, and
 leaves every new path node stored -/
 theorem mergeSides_replace (rm : Bool) (k : Key32) (c : T) :
-    ∀ (t : T) (d : Nat) (st : σ), Canon bit32 width d t →
+    ∀ (t : T) (d : Nat) (st : σ), Canon bit32 width d t → (∀ u, IsSub u t → U u) →
       (rm = true → ∀ h, h ∈ spine H hok k d t → h ∉ newSpine H hok k c d t) →
       (newSpine H hok k c d t).Nodup →
       (mergeSides H S rm (upSides H hok k d t) (upParents H hok k d t)
@@ -158,14 +158,14 @@ theorem mergeSides_replace (rm : Bool) (k : Key32) (c : T) :
           (nodeOf H hok (termDepth k d t) c) st).2 h = S.get st h) ∧
       SpineStored H hok S (mergeSides H S rm (upSides H hok k d t) (upParents H hok k d t)
           (nodeOf H hok (termDepth k d t) c) st).2 k c d t
-  | .empty, d, st, _, _, _ => by
+  | .empty, d, st, _, _, _, _ => by
     simp [upSides, upParents, termDepth, mergeSides, replace, SpineStored]
-  | .leaf _ _, d, st, _, _, _ => by
+  | .leaf _ _, d, st, _, _, _, _ => by
     simp [upSides, upParents, termDepth, mergeSides, replace, SpineStored]
-  | .node l r, d, st, hc, hp1, hnd => by
+  | .node l r, d, st, hc, hU, hp1, hnd => by
     have hcn := hc
     obtain ⟨hdn, hl, hr, hsz, hcl, hcr⟩ := hc
-    have hne := canon_children_ne H hok hcn
+    have hne := canon_children_ne H hok hcn hU
     by_cases hb' : bit32 k d = true
     · -- the path goes right; the side node is the left child
       have e1 : upSides H hok k d (.node l r) = upSides H hok k (d + 1) r ++ [hb H hok l] := by
@@ -181,7 +181,7 @@ theorem mergeSides_replace (rm : Bool) (k : Key32) (c : T) :
         simp [newSpine, hb', e4]
       rw [e6] at hnd hp1
       rw [e5] at hp1
-      obtain ⟨ih1, ih2, ih3⟩ := mergeSides_replace rm k c r (d + 1) st hcr
+      obtain ⟨ih1, ih2, ih3⟩ := mergeSides_replace rm k c r (d + 1) st hcr (fun u hu => hU u (.inr (.inr hu)))
         (fun hrm h hm hn => hp1 hrm h (by simp [hm]) (by simp [hn]))
         (List.nodup_cons.mp hnd).2
       rw [e1, e2, e3, mergeSides_append H S rm _ _ _ _ _ _ (upSides_length H hok k r (d + 1)),
@@ -257,7 +257,7 @@ theorem mergeSides_replace (rm : Bool) (k : Key32) (c : T) :
         simp [newSpine, hbf, e4]
       rw [e6] at hnd hp1
       rw [e5] at hp1
-      obtain ⟨ih1, ih2, ih3⟩ := mergeSides_replace rm k c l (d + 1) st hcl
+      obtain ⟨ih1, ih2, ih3⟩ := mergeSides_replace rm k c l (d + 1) st hcl (fun u hu => hU u (.inr (.inl hu)))
         (fun hrm h hm hn => hp1 hrm h (by simp [hm]) (by simp [hn]))
         (List.nodup_cons.mp hnd).2
       rw [e1, e2, e3, mergeSides_append H S rm _ _ _ _ _ _ (upSides_length H hok k l (d + 1)),
